@@ -360,6 +360,13 @@ func (o *Origin) eval(v ssa.Value) *Term {
 		if base.Op == "tuple" && x.Index < len(base.Args) {
 			return base.Args[x.Index]
 		}
+		// after, found := strings.CutPrefix(s, p)  ≡  found = strings.HasPrefix(s, p); after = s[len(p):] (when found)
+		if base.IsCall("strings.CutPrefix") && len(base.Args) == 2 {
+			if x.Index == 1 {
+				return &Term{Op: "call", Name: "strings.HasPrefix", Args: base.Args}
+			}
+			return &Term{Op: "slice", Args: []*Term{base.Args[0], {Op: "call", Name: "builtin:len", Args: []*Term{base.Args[1]}}, {Op: "const", Name: "_"}, {Op: "const", Name: "_"}}}
+		}
 		return &Term{Op: "res", Name: fmt.Sprintf("#%d", x.Index), Args: []*Term{base}}
 	case *ssa.BinOp:
 		return &Term{Op: "binop", Name: x.Op.String(), Args: []*Term{o.Of(x.X), o.Of(x.Y)}}
@@ -1102,6 +1109,8 @@ func isGeneratedGetter(p *Prog, fn *ssa.Function) (string, bool) {
 	return "", false
 }
 
+var debugPure func(fn, why string)
+
 var pureMemo = map[*ssa.Function]bool{}
 var pureVisiting = map[*ssa.Function]bool{}
 
@@ -1160,6 +1169,9 @@ func isPureFn(fn *ssa.Function, depth int) bool {
 		}
 	}
 	delete(pureVisiting, fn)
+	if !ok && debugPure != nil {
+		debugPure(FuncName(fn), "not pure")
+	}
 	if !ok || len(pureVisiting) == 0 {
 		pureMemo[fn] = ok
 	}
